@@ -1047,6 +1047,31 @@ class Proto:
                         val = ('pred', ('lin', lb, va))
             elif 'FutureId' in res:
                 val = ('pred', ('own',))
+            else:
+                # derived equality on a local enum whose variant is known on this path (`if action == Action::Ignore`)
+                def enum_of(a):
+                    e = fn.expr_of_operand(a)
+                    if e[0] == 'agg' and e[1] == 'adt':
+                        return e[2].split('::')[-1]
+                    if a['k'] != 'const':
+                        cands = []
+                        if e[0] in ('var', 'arg'):
+                            cands.append(e[1])
+                        # the reference temporary points at a user variable: `&action`
+                        for d_ in fn.defs().get(a['pl']['l'], []):
+                            if d_[0] == 'stmt' and d_[3]['k'] == 'ref' and not d_[3]['pl']['p']:
+                                cands.append(d_[3]['pl']['l'])
+                        l0 = self._root_local(fn, a['pl'])
+                        if l0 is not None:
+                            cands.append(l0)
+                        for l in cands:
+                            v = vget(st, l)
+                            if v and v[0] == 'enum':
+                                return v[1]
+                    return None
+                x, y = enum_of(args[0]), enum_of(args[1])
+                if x is not None and y is not None:
+                    val = ('bool', int(x == y))
             if val and neg:
                 val = ('not', val)
             return done(st, val)
